@@ -150,9 +150,11 @@ def value_expr(name, kind, fs, rng, generics=""):
 
 
 def fields_decl(kind, fs):
+    def ty(f):
+        return f.get("ty_override") or TYPES[f["t"]][0]
     if kind == "named":
-        return " { " + ", ".join("%s: %s" % (f["name"], TYPES[f["t"]][0]) for f in fs) + " }"
-    return "(" + ", ".join(TYPES[f["t"]][0] for f in fs) + ")"
+        return " { " + ", ".join("%s: %s" % (f["name"], ty(f)) for f in fs) + " }"
+    return "(" + ", ".join(ty(f) for f in fs) + ")"
 
 
 def is_bare_per_text(lit, args, field_names):
@@ -229,8 +231,8 @@ def gen_struct_case(rng, k, derive_trait):
     return c
 
 
-def gen_enum_case(rng, k, derive_trait):
-    """C07: enum-level (shared) format vs the documented meaning"""
+def gen_enum_case(rng, k, derive_trait, with_flags=False):
+    """C07: enum-level (shared) format vs the documented meaning.  with_flags (C05): caller's flags on every variant"""
     c = Case(k)
     attr_name = F.ATTR_OF[derive_trait]
     nvar = rng.randrange(1, 4)
@@ -264,6 +266,15 @@ def gen_enum_case(rng, k, derive_trait):
                 lit, args, info = rng.choice(["unit!", "u{{}}", ""]), [], {"pointer_named": []}
             own = (lit, args, info)
         variants.append({"name": vname, "kind": kind, "fs": fs, "own": own})
+    # one attribute-less single-field variant may be of a type parameter (its bound has to be inferred by the derive:
+    # under a wrapping enum-level format too, where the field is printed through `_variant`)
+    generic = None
+    cand = [v for v in variants if len(v["fs"]) == 1 and not v["own"]]
+    if cand and rng.random() < 0.35:
+        gv = rng.choice(cand)
+        generic = TYPES[gv["fs"][0]["t"]][0]
+        gv["fs"][0]["ty_override"] = "G"
+    en = "En::<%s>" % generic if generic else "En"
     # if there is a non-wrapping default and a multi-field variant has no own attr it uses the default: fine
     decl_vs = []
     for v in variants:
@@ -277,14 +288,14 @@ def gen_enum_case(rng, k, derive_trait):
         top += "#[%s(%s)] " % (attr_name, ", ".join([F.rust_lit(shared_lit)] + shared_args))
     if rename:
         top += "#[%s(rename_all = \"%s\")] " % (attr_name, rename)
-    c.decl = "#[derive(derive_more::%s)] %s pub enum En { %s }" % (derive_trait, top, ", ".join(decl_vs))
-    c.meta = {"mode": mode, "variants": [(v["name"], v["kind"], len(v["fs"]), v["own"][0] if v["own"] else None) for v in variants],
+    c.decl = "#[derive(derive_more::%s)] %s pub enum En%s { %s }" % (derive_trait, top, "<G>" if generic else "", ", ".join(decl_vs))
+    c.meta = {"mode": mode, "generic": generic, "variants": [(v["name"], v["kind"], len(v["fs"]), v["own"][0] if v["own"] else None) for v in variants],
               "rename": rename}
     c.values = []
     dl = LETTER[derive_trait]
     from .fmtcheck import rename as do_rename
     for v in variants:
-        val = value_expr("En::" + v["name"], v["kind"], v["fs"], rng) if v["kind"] != "unit" else "En::" + v["name"]
+        val = value_expr(en + "::" + v["name"], v["kind"], v["fs"], rng) if v["kind"] != "unit" else en + "::" + v["name"]
         kind, fs = v["kind"], v["fs"]
         # the text the variant would print by itself (documented rule)
         if v["own"]:
@@ -309,7 +320,36 @@ def gen_enum_case(rng, k, derive_trait):
             expected = vt if v["own"] else "String::from(\"dflt\")"
         else:
             expected = vt
-        c.values.append({"val": val, "expected": expected, "variant": v})
+        flag_obs = []
+        if with_flags and expected is not None:
+            # C05 on enums: where do the caller's flags go (independent reading of the property text)
+            effective = mode
+            if mode == "bare_variant" and derive_trait == "Display":
+                effective = "none"          # a bare `{_variant}` of the derived trait is no attribute at all
+            for sp in rng.sample([x for x in OUTER_SPECS if not any(ch in x for ch in "xXobeE?")], 3):
+                if effective in ("wrap_ph", "wrap_arg", "wrap_twice", "bare_variant"):
+                    flag_obs.append(("flags-inert:" + sp, sp, expected))
+                elif v["own"]:
+                    lit, args, info = v["own"]
+                    tr_, letter = is_bare_per_text(lit, args, None)
+                    if not tr_:
+                        flag_obs.append(("flags-inert:" + sp, sp, expected))
+                        continue
+                    binds = " ".join("let %s = __v_%d;" % (ident_of(kind, fs, i), i) for i in range(len(fs)))
+                    if args:
+                        inner = "{ %s %s }" % (binds, args[0][2])
+                    else:
+                        ref = re.fullmatch(r"\{([^\s:{}]*).*\}", lit, re.S).group(1)
+                        fi = [i for i in range(len(fs)) if F.unraw(ident_of(kind, fs, i)) == ref]
+                        if not fi:
+                            continue
+                        inner = ("*__v_%d" if letter == "p" else "__v_%d") % fi[0]
+                    flag_obs.append(("flags-pass:" + sp, sp, "format!(\"{:%s%s}\", %s)" % (sp, letter, inner)))
+                elif effective == "default":
+                    flag_obs.append(("flags-inert:" + sp, sp, expected))
+                elif len(fs) == 1:
+                    flag_obs.append(("flags-pass:" + sp, sp, "format!(\"{:%s%s}\", __f0)" % (sp, dl)))
+        c.values.append({"val": val, "expected": expected, "variant": v, "flag_obs": flag_obs})
     c.meta["must_fail"] = any(x["expected"] is None for x in c.values)
     return c
 
@@ -341,10 +381,18 @@ def render_case(c, derive_trait, is_enum):
                 exp = re.sub(r"\(&__v\)\.(r#\w+|\w+)", lambda m: "(*__v_%d)" % member_index(kind, fs, m.group(1)), exp)
                 lines.append("                crate::emit(%d, %s, &format!(\"{%s}\", __v), &%s);" % (
                     c.k, F.rust_lit("variant:%d" % j), ":" + dl if dl else "", exp))
+                for (tag, sp, fexp) in x.get("flag_obs", []):
+                    fexp = re.sub(r"&__v\.(r#\w+|\w+)", lambda m: "__v_%d" % member_index(kind, fs, m.group(1)), fexp)
+                    fexp = re.sub(r"\(&__v\)\.(r#\w+|\w+)", lambda m: "(*__v_%d)" % member_index(kind, fs, m.group(1)), fexp)
+                    lines.append("                crate::emit(%d, %s, &format!(\"{:%s%s}\", __v), &%s);" % (
+                        c.k, F.rust_lit("%s@%d" % (tag, j)), sp, dl, fexp))
                 lines.append("            }")
             else:
                 lines.append("            crate::emit(%d, %s, &format!(\"{%s}\", __v), &%s);" % (
                     c.k, F.rust_lit("variant:%d" % j), ":" + dl if dl else "", x["expected"]))
+                for (tag, sp, fexp) in x.get("flag_obs", []):
+                    lines.append("            crate::emit(%d, %s, &format!(\"{:%s%s}\", __v), &%s);" % (
+                        c.k, F.rust_lit("%s@%d" % (tag, j)), sp, dl, fexp))
             lines.append("        }")
     lines.append("    }")
     lines.append("}")
@@ -374,7 +422,25 @@ def build_and_run(name, cases, derive_of, is_enum_of, chk):
     d = common.make_crate(name, main)
     rc, err, out = common.run_crate(d, name)
     if out is None:
-        return None, err
+        # name the generated cases rustc complains about (line spans of the module of each case)
+        starts, line = [], MAIN_PRELUDE.count("\n") + 1
+        for c, m in zip(cases, mods):
+            starts.append((line, c))
+            line += m.count("\n") + 1
+        bad = {}
+        for mm in re.finditer(r"--> src/main\.rs:(\d+)", err):
+            ln = int(mm.group(1))
+            owner = None
+            for (st, c) in starts:
+                if st <= ln:
+                    owner = c
+                else:
+                    break
+            if owner is not None:
+                bad.setdefault(owner.k, owner.decl)
+        first = re.search(r"^error[^\n]*\n(?:[^\n]*\n){0,6}", err, re.M)
+        return None, err + "\nFIRST ERROR:\n" + (first.group(0) if first else "?") + \
+            "\nFAILING CASES (%d):\n" % len(bad) + "\n".join(list(bad.values())[:12])
     res = {}
     for line in out.splitlines():
         p = line.split("\t")
